@@ -1,5 +1,6 @@
 import RQ.Lemmas.PathLemmas
 import RQ.Lemmas.PathAlias
+import RQ.Lemmas.ComposeSeries
 import RQ.Spec.Push
 /-!
 # C16 — per-patch series options and file-name resolution are honoured consistently
@@ -40,21 +41,14 @@ theorem C16_comment_ignored (line : Bytes) (h : line = [] ∨ line.head? = some 
   · subst h; simp
   · simp [h]
 
-theorem splitWs_noWs : ∀ (bs cur : Bytes), (∀ b ∈ bs, isWs b = false) → cur ++ bs ≠ [] →
-    splitWs bs cur = [cur ++ bs]
-  | [], cur, _, hne => by
-    cases cur with
-    | nil => simp at hne
-    | cons c cs => simp [splitWs]
-  | b :: bs, cur, hw, _ => by
-    have hb : isWs b = false := hw b (by simp)
-    rw [splitWs]
-    simp only [hb]
-    have := splitWs_noWs bs (cur ++ [b]) (fun x hx => hw x (by simp [hx])) (by simp)
-    simpa using this
+/-- a non-empty line without white space (Unicode `White_Space`, `Series.WsFree`) is one token -/
+theorem splitWs_noWs (bs cur : Bytes) (hw : WsFree bs) (hne : cur ++ bs ≠ []) : splitWs bs cur = [cur ++ bs] :=
+  splitWs_plain bs cur hw hne
 
-/-- a line with just a patch name uses the default strip level 1 and is not reversed -/
-theorem C16_default_strip (name : Bytes) (hn : name ≠ []) (hw : ∀ b ∈ name, isWs b = false) (hc : name.head? ≠ some 35) :
+/-- a line with just a patch name uses the default strip level 1 and is not reversed.  (`WsFree name`: no Unicode
+white-space character.  "No ASCII white-space byte" is not enough: the line `p<U+00A0>q` is the name `p` with a free
+argument `q`, see the examples below.) -/
+theorem C16_default_strip (name : Bytes) (hn : name ≠ []) (hw : WsFree name) (hc : name.head? ≠ some 35) :
     parseLine name = .ok (some { name, strip := 1, reverse := false }) := by
   unfold parseLine
   have h1 : name.isEmpty = false := by cases name <;> simp_all
@@ -63,6 +57,30 @@ theorem C16_default_strip (name : Bytes) (hn : name ≠ []) (hw : ∀ b ∈ name
   simp only [List.nil_append] at h3
   simp only [h1, h2, h3]
   rfl
+
+/-! ### Unicode white space separates the tokens of a series line (`str::split_whitespace`) -/
+
+/-- the series line `p.patch<U+00A0>-p0` (no-break space, C2 A0): the entry `p.patch` with strip level 0 -/
+example : readSeries [112, 46, 112, 97, 116, 99, 104, 0xC2, 0xA0, 45, 112, 48, 10] =
+    .ok [{ name := [112, 46, 112, 97, 116, 99, 104], strip := 0, reverse := false }] := by
+  unfold readSeries; rfl
+
+/-- the same with U+3000 (ideographic space, E3 80 80) -/
+example : readSeries [112, 46, 112, 97, 116, 99, 104, 0xE3, 0x80, 0x80, 45, 112, 48, 10] =
+    .ok [{ name := [112, 46, 112, 97, 116, 99, 104], strip := 0, reverse := false }] := by
+  unfold readSeries; rfl
+
+/-- `p<U+200B>q` (zero-width space, E2 80 8B — not `White_Space`) stays one name -/
+example : readSeries [112, 0xE2, 0x80, 0x8B, 113, 10] =
+    .ok [{ name := [112, 0xE2, 0x80, 0x8B, 113], strip := 1, reverse := false }] := by
+  unfold readSeries; rfl
+
+example : splitWs [112, 0xE2, 0x80, 0x8B, 113] [] = [[112, 0xE2, 0x80, 0x8B, 113]] := by decide
+
+/-- `p<U+00A0>q` has no ASCII white-space byte, but it is not a line with just a patch name: the name is `p` -/
+example : (∀ b ∈ ([112, 0xC2, 0xA0, 113] : Bytes), isWs b = false) ∧
+    parseLine [112, 0xC2, 0xA0, 113] = .ok (some { name := [112], strip := 1, reverse := false }) :=
+  ⟨by decide, rfl⟩
 
 /-- the file to patch is never `/dev/null` (a missing name) and is one of the two names -/
 theorem C16_choose_is_name (m : Push.Mem) (fs : FS) (old new : Option Bytes) (t : Bytes)
